@@ -3,7 +3,7 @@ C11 — re-specifying / refitting is history-independent; results before the req
 
 Subject: the executable model `ZV.History` (`Model/History.lean`) that the native driver runs for gate K — the same
 definitions, no parallel copy.  All statements are for *every* class table `C` satisfying the decidable side
-condition `wf C` (`tables_wf`: checked for each of the sixteen tables the driver executes), every call history
+condition `wf C` (`tables_wf`: checked for each of the tables the driver executes), every call history
 `ops` (unbounded: induction over the list) and every argument identifier.  Proofs and helper lemmas are in
 `Lemmas/History.lean`.
 
@@ -163,27 +163,28 @@ theorem tables_wf :
     (∀ b, wf (iptw b) = true ∧ wf (aiptw b) = true ∧ wf (tmle b) = true ∧ wf (snm b) = true) ∧
     wf stochIptw = true ∧ wf stochTmle = true ∧ wf timeFixed = true ∧ wf survival = true ∧ wf ipsw = true ∧
     wf gtransport = true ∧ wf aipsw = true ∧ wf ipmw = true ∧ wf ipcw = true ∧
-    wf monteCarlo = true ∧ wf iterCond = true ∧
+    wf monteCarlo = true ∧ wf iterCond = true ∧ wf crossfit = true ∧
     (∀ b, clean (iptw b) = true ∧ clean (aiptw b) = true ∧ clean (tmle b) = true ∧ clean (snm b) = true) ∧
     clean stochIptw = true ∧ clean stochTmle = true ∧ clean timeFixed = true ∧ clean survival = true ∧
     clean ipsw = true ∧ clean gtransport = true ∧ clean aipsw = true ∧ clean ipmw = true ∧ clean ipcw = true ∧
-    clean monteCarlo = true ∧ clean iterCond = true := by
+    clean monteCarlo = true ∧ clean iterCond = true ∧ clean crossfit = true := by
   refine ⟨fun b => by cases b <;> decide, by decide, by decide, by decide, by decide, by decide, by decide, by decide,
-    by decide, by decide, by decide, by decide, fun b => by cases b <;> decide, by decide, by decide, by decide,
-    by decide, by decide, by decide, by decide, by decide, by decide, by decide, by decide⟩
+    by decide, by decide, by decide, by decide, by decide, fun b => by cases b <;> decide, by decide, by decide,
+    by decide, by decide, by decide, by decide, by decide, by decide, by decide, by decide, by decide, by decide⟩
 
 /-- every class name the driver accepts resolves to one of the tables above -/
 theorem tables_all (name : String) (b : Bool) (C : Cls) (h : clsByName name b = some C) :
     wf C = true ∧ clean C = true := by
   unfold clsByName at h
   have t := tables_wf
-  obtain ⟨t1, t2, t3, t4, t5, t6, t7, t8, t9, t10, t11, t12, c1, c2, c3, c4, c5, c6, c7, c8, c9, c10, c11, c12⟩ := t
+  obtain ⟨t1, t2, t3, t4, t5, t6, t7, t8, t9, t10, t11, t12, t13, c1, c2, c3, c4, c5, c6, c7, c8, c9, c10, c11, c12,
+    c13⟩ := t
   split at h <;> first
     | (cases h; first
         | exact ⟨(t1 b).1, (c1 b).1⟩ | exact ⟨(t1 b).2.1, (c1 b).2.1⟩ | exact ⟨(t1 b).2.2.1, (c1 b).2.2.1⟩
         | exact ⟨(t1 b).2.2.2, (c1 b).2.2.2⟩ | exact ⟨t2, c2⟩ | exact ⟨t3, c3⟩ | exact ⟨t4, c4⟩ | exact ⟨t5, c5⟩
         | exact ⟨t6, c6⟩ | exact ⟨t7, c7⟩ | exact ⟨t8, c8⟩ | exact ⟨t9, c9⟩ | exact ⟨t10, c10⟩ | exact ⟨t11, c11⟩
-        | exact ⟨t12, c12⟩)
+        | exact ⟨t12, c12⟩ | exact ⟨t13, c13⟩)
     | cases h
 
 end ZV.P11
